@@ -220,7 +220,7 @@ theorem C16_charsetComma_witness :
       parseCT (render ctComma) = .ok ⟨ctComma.type, ctComma.subtype, [(charsetName, [97])]⟩ := by
   refine ⟨by decide, by decide, ?_⟩
   rw [parseCT_render ctComma (by decide) (by decide)]
-  simp [sortedPairs, ctComma, fixCharset, charsetName, chComma]
+  simp [sortedPairs, ctComma, fixCharset, charsetName, chComma, lowerName, lower, lowerC]
 
 /-- finding param-crlf: the model reproduces the `ValueError` -/
 theorem C16_valueCRLF_witness :
@@ -265,37 +265,67 @@ theorem C16_snapshot_after_changes (cur : List Bytes) (later : List (List Bytes)
 /-! ## the executable specification holds of the model -/
 
 /-- every clause but the content-type round trip holds for every input of the domain -/
-theorem holds_model_no_ctype (i : Input) (hw : i.wf = true) (hc : ∀ ct, i ≠ .ctype ct) : holds i (model i) = true := by
+theorem holds_model_no_ctype (i : Input) (hw : i.wf = true) (hc : ∀ ct, i ≠ .ctype ct) (hs : ∀ cts, i ≠ .ctypeSeq cts) :
+    holds i (model i) = true := by
   cases i with
-  | eq ctA ctB a b => simp [holds, clauses, model, cShape, cBytes, cEq, cText, cJson, cChunking, cCharset, cChunkSizes, cChunkConcat, cLazy, cCtRoundtrip, cSnapshot]
+  | eq ctA ctB a b => simp [holds, clauses, model, cShape, cBytes, cEq, cText, cJson, cChunking, cCharset, cChunkSizes, cChunkConcat, cLazy, cCtRoundtrip, cCtHistory, cSnapshot]
   | text s =>
     have hs : s.all validCp = true := hw
-    simp [holds, clauses, C16_text_roundtrip s hs, cShape, cBytes, cEq, cText, cJson, cChunking, cCharset, cChunkSizes, cChunkConcat, cLazy, cCtRoundtrip, cSnapshot, utf8Ref_utf8Encode s hs]
+    simp [holds, clauses, C16_text_roundtrip s hs, cShape, cBytes, cEq, cText, cJson, cChunking, cCharset, cChunkSizes, cChunkConcat, cLazy, cCtRoundtrip, cCtHistory, cSnapshot, utf8Ref_utf8Encode s hs]
   | json d =>
     have hs : d.all validCp = true := hw
-    simp [holds, clauses, model, cShape, cBytes, cEq, cText, cJson, cChunking, cCharset, cChunkSizes, cChunkConcat, cLazy, cCtRoundtrip, cSnapshot, utf8Ref_utf8Encode d hs]
+    simp [holds, clauses, model, cShape, cBytes, cEq, cText, cJson, cChunking, cCharset, cChunkSizes, cChunkConcat, cLazy, cCtRoundtrip, cCtHistory, cSnapshot, utf8Ref_utf8Encode d hs]
   | decode isText cs chunks whole =>
     have h1 : (iterText latin1 chunks).map List.flatten = decodeAll latin1 chunks.flatten := C16_chunk_independent latin1 latin1_lawful chunks
     have h2 : (iterText utf8 chunks).map List.flatten = decodeAll utf8 chunks.flatten := C16_chunk_independent utf8 utf8_lawful chunks
     have h3 : (iterText ascii chunks).map List.flatten = decodeAll ascii chunks.flatten := C16_chunk_independent ascii ascii_lawful chunks
     cases isText <;> cases cs <;>
       simp [holds, clauses, model, decodeModel, cShape, cBytes, cEq, cText, cJson, cChunking, cCharset, cChunkSizes,
-        cChunkConcat, cLazy, cCtRoundtrip, cSnapshot, wholeRef, h1, h2, h3, decodeAll_latin1, decodeAll_utf8, decodeAll_ascii] <;>
+        cChunkConcat, cLazy, cCtRoundtrip, cCtHistory, cSnapshot, wholeRef, h1, h2, h3, decodeAll_latin1, decodeAll_utf8, decodeAll_ascii] <;>
       cases whole <;> simp
   | stream i =>
     have hwf : i.wf = true := hw
     simp only [StreamIn.wf, Bool.and_eq_true, decide_eq_true_eq] at hwf
     have hn : 1 ≤ i.chunkSize := hwf.1.1
-    simp [holds, clauses, model, cShape, cBytes, cEq, cText, cJson, cChunking, cCharset, cCtRoundtrip, cSnapshot,
+    simp [holds, clauses, model, cShape, cBytes, cEq, cText, cJson, cChunking, cCharset, cCtRoundtrip, cCtHistory, cSnapshot,
       model_chunkSizes i, model_chunkConcat i hn hwf.2, model_lazy i]
   | ctype ct => exact absurd rfl (hc ct)
+  | ctypeSeq cts => exact absurd rfl (hs cts)
   | copy init ops =>
-    simp [holds, clauses, model, cShape, cBytes, cEq, cText, cJson, cChunking, cCharset, cChunkSizes, cChunkConcat, cLazy, cCtRoundtrip, model_snapshot init ops]
+    simp [holds, clauses, model, cShape, cBytes, cEq, cText, cJson, cChunking, cCharset, cChunkSizes, cChunkConcat, cLazy, cCtRoundtrip, cCtHistory, model_snapshot init ops]
 
 /-- which inputs fall in a known-finding class (as `TTV.Drv.C16.classes`) -/
 def noFinding : Input → Bool
   | .ctype ct => !inFinding ct
+  | .ctypeSeq cts => cts.all fun ct => !inFinding ct.lowered
   | _ => true
+
+theorem zip_map_self {α β : Type} (f : α → β) : ∀ (l : List α) (q : α × β), q ∈ l.zip (l.map f) → q.2 = f q.1
+  | [], q, h => by simp at h
+  | a :: l, q, h => by
+    simp only [List.map_cons, List.zip_cons_cons, List.mem_cons] at h
+    rcases h with rfl | h
+    · rfl
+    · exact zip_map_self f l q h
+
+theorem valueCRLF_lowered (ct : CT) : valueCRLF ct.lowered = valueCRLF ct := by
+  simp [valueCRLF, CT.lowered, List.any_map, Function.comp_def]
+
+/-- C16 (history independence): content types parsed one after the other in one process — in any letter case, a type again
+after a variant of it — each come back as themselves: type, subtype and parameter names lower-cased (they are
+case-insensitive), parameter values exactly as given.  (The model has no state; that the code has none either is what the
+correspondence check on such sequences establishes.) -/
+theorem C16_ct_history_independent (cts : List CT) (hw : cts.all CT.wfU = true)
+    (hf : cts.all (fun ct => !inFinding ct.lowered) = true) :
+    model (.ctypeSeq cts) = .ctypeSeq (cts.map fun ct => (render ct, .ok { ct.lowered with params := sortParams ct.lowered.params })) := by
+  simp only [model]
+  congr 1
+  apply List.map_congr_left
+  intro ct hct
+  have h1 := List.all_eq_true.mp hw ct hct
+  have h2 := List.all_eq_true.mp hf ct hct
+  simp only [inFinding, Bool.not_eq_true', Bool.or_eq_false_iff] at h2
+  exact ctypePair_lowered ct h1 (by rw [← valueCRLF_lowered]; exact h2.1.2) h2.1.1
 
 /- Full statement `∀ i, i.wf → holds i (model i) = true` is false: the model reproduces the defects of the finding
    classes (`C16_charsetComma_witness`, `C16_valueCRLF_witness`). -/
@@ -306,8 +336,16 @@ theorem holds_model_partial (i : Input) (hw : i.wf = true) (hf : noFinding i = t
   | ctype ct =>
     have hf' : inFinding ct = false := by simpa [noFinding] using hf
     have := C16_ct_roundtrip_partial ct hw hf'
-    simp [holds, clauses, this, cShape, cBytes, cEq, cText, cJson, cChunking, cCharset, cChunkSizes, cChunkConcat, cLazy, cCtRoundtrip, cSnapshot]
-  | _ => exact holds_model_no_ctype _ hw (by intro ct h; cases h)
+    simp [holds, clauses, this, cShape, cBytes, cEq, cText, cJson, cChunking, cCharset, cChunkSizes, cChunkConcat, cLazy, cCtRoundtrip, cCtHistory, cSnapshot]
+  | ctypeSeq cts =>
+    have h := C16_ct_history_independent cts hw (by simpa [noFinding] using hf)
+    simp only [holds, clauses, h, List.all_cons, List.all_nil, cShape, cBytes, cEq, cText, cJson, cChunking, cCharset, cChunkSizes,
+      cChunkConcat, cLazy, cCtRoundtrip, cSnapshot, cCtHistory, Bool.true_and, Bool.and_true, List.length_map, beq_self_eq_true]
+    rw [List.all_eq_true]
+    intro q hq
+    have := zip_map_self (fun ct : CT => (render ct, Parsed.ok { ct.lowered with params := sortParams ct.lowered.params })) cts q hq
+    simp [this]
+  | _ => exact holds_model_no_ctype _ hw (by intro ct h; cases h) (by intro cts h; cases h)
 
 /-! ## tie to the source
 `TTV.Generated.ContentSrc` is produced by `harness/pycontent2lean.py` from `testtools/content.py`, `content_type.py` and
